@@ -1,4 +1,6 @@
-use midnight_circuits::instructions::{BinaryInstructions, EqualityInstructions};
+use midnight_circuits::instructions::{
+    AssignmentInstructions, BinaryInstructions, EqualityInstructions,
+};
 use midnight_proofs::{circuit::Layouter, plonk};
 use midnight_zk_stdlib::ZkStdLib;
 
@@ -24,6 +26,12 @@ pub fn is_equal_incircuit(
     use CircuitValue::*;
     let b = match (x, y) {
         (Bool(a), Bool(b)) => std_lib.is_equal(layouter, a, b)?,
+
+        // Two empty byte arrays are trivially equal (the conjunction below needs at
+        // least one term).
+        (Bytes(v), Bytes(w)) if v.is_empty() && w.is_empty() => {
+            std_lib.assign_fixed(layouter, true)?
+        }
 
         (Bytes(v), Bytes(w)) if v.len() == w.len() => {
             let pair_wise_eq = (v.iter().zip(w))
